@@ -57,7 +57,7 @@ impl Writer {
 //@attr #[verifier::exec_allows_no_decreases_clause]
 //@hint after <<<opt.cancelled()?;>>>
         let ghost m = frozen_reader.trees.snap();
-        let ghost u0 = frozen_reader.concurrent_node_ids.used0();
+        let ghost u0 = (tmp_nodes.taken())(self.index);
         let ghost s = tnodes(m, current_node);
         let ghost t0 = tmp_nodes.tv();
         let ghost a0 = tmp_nodes.allocated();
